@@ -278,6 +278,11 @@ def check_row_sites(prog: Program, rep, rule: str) -> None:
                 val = _assigned_value(d, m.id)
                 if val is not None and not F.in_loop(d) and isinstance(val, ast.Constant):
                     continue        # placeholder before the loop
+                if val is None and isinstance(d.ast, ast.Assign) and isinstance(d.ast.targets[0], (ast.Tuple, ast.List)) \
+                        and isinstance(d.ast.value, ast.Name) and d not in F.density_nodes:
+                    # unpacked from a value this rule could not identify as the sample (the filter reached through an alias)
+                    raise AnalysisError(f'{site}: the Mach reference argument `{m.id}` is unpacked from `{norm(d.ast.value)[:40]}`, '
+                                        f'which cannot be traced to the record filter or the atmosphere query')
                 bad.append(d)
             ok = bool(defs) and not bad and any(d in F.density_nodes for d in defs)
             if not ok:
